@@ -6,9 +6,24 @@ of ManagedThread is constructed before the std::thread is started.  The interlea
 (Model/Concurrency.lean) takes these facts as its configuration `Cfg.current`, so the C20 theorems
 are re-checked against what the source says now.
 
-Token scan (comments and CELMA_VERIF_SYNC hooks removed, whitespace squeezed) against the narrow
-shapes the model was written for; anything else raises ValueError -- a broken tie, never a default.
+How the source is read (by structure and role, not by spelling):
+
+ 1. comments, preprocessor lines and the CELMA_VERIF_SYNC hooks are removed, the rest is tokenised;
+ 2. a declaration scanner collects classes (bases in order, data members with type and initialiser,
+    `using` aliases, member functions) and namespace-scope constants / functions;
+ 3. the bodies of the anchored functions are parsed by a small recursive-descent parser (blocks,
+    if/else, return, declarations, expression statements; full expression grammar incl. lambdas,
+    casts, `new`, ternaries) -- any other statement raises;
+ 4. a symbolic executor runs them path by path: locals hold symbolic values (result of the k-th shared
+    read, null, the fresh object, ...), a branch on a value whose nullness is already known on the path
+    follows one side only, calls of functions defined in the same file are inlined, lock guards
+    release at the end of their scope, named constants and aliases are resolved.  Shared objects are
+    recognised by their declared type (std::mutex, std::atomic<..>, std::unique_ptr<..>, raw pointer);
+ 5. the resulting set of paths (sequence of shared accesses + decisions + what is returned) is compared
+    with the path sets of the two shapes the Lean model covers.  Everything else raises
+    ValueError -- a broken tie, never a default.
 """
+import copy
 import os
 import re
 import sys
@@ -17,10 +32,21 @@ ACQ = ("acquire", "acq_rel", "seq_cst")      # consume is not accepted
 REL = ("release", "acq_rel", "seq_cst")
 
 
+class TranslateError(ValueError):
+    pass
+
+
+def fail(msg):
+    raise TranslateError(msg)
+
+
+# ============================================================================ text -> tokens
+
 def strip_comments(src):
-    src = re.sub(r"/\*.*?\*/", " ", src, flags=re.S)
-    src = re.sub(r"//[^\n]*", " ", src)
-    return src
+    def repl(m):
+        s = m.group(0)
+        return " " if s.startswith("/") else s
+    return re.sub(r'//[^\n]*|/\*.*?\*/|"(?:\\.|[^"\\\n])*"|\'(?:\\.|[^\'\\\n])*\'', repl, src, flags=re.S)
 
 
 def strip_hooks(src):
@@ -29,198 +55,2010 @@ def strip_hooks(src):
     return src
 
 
+def strip_preprocessor(src):
+    """directive lines are blanked; conditional compilation other than the include guard raises
+    (both branches would be read as code)"""
+    out, conds = [], 0
+    lines = src.split("\n")
+    i = 0
+    while i < len(lines):
+        l = lines[i]
+        m = re.match(r"\s*#\s*(\w+)", l)
+        if m:
+            d = m.group(1)
+            if d in ("if", "ifdef", "ifndef"):
+                conds += 1
+                if conds > 1 or d != "ifndef":
+                    fail("conditional compilation (#%s) in an anchored file" % d)
+            elif d in ("else", "elif"):
+                fail("conditional compilation (#%s) in an anchored file" % d)
+            while l.rstrip().endswith("\\") and i + 1 < len(lines):
+                out.append("")
+                i += 1
+                l = lines[i]
+            out.append("")
+        else:
+            out.append(l)
+        i += 1
+    return "\n".join(out)
+
+
+TOKEN_RE = re.compile(r"""
+    (?P<ws>\s+)
+  | (?P<id>[A-Za-z_]\w*)
+  | (?P<num>\d[\w.']*)
+  | (?P<str>"(?:\\.|[^"\\\n])*")
+  | (?P<chr>'(?:\\.|[^'\\\n])*')
+  | (?P<op>\.\.\.|->\*|::|->|\+\+|--|==|!=|<=|>=|&&|\|\||\+=|-=|\*=|/=|%=|&=|\|=|\^=|[-+*/%&|^~!=<>?:;,.(){}\[\]])
+""", re.X)
+
+
+class Tok(str):
+    """a token: its text, kind (id/num/str/chr/op) and source span"""
+    __slots__ = ("k", "a", "b")
+
+    def __new__(cls, s, k, a, b):
+        o = str.__new__(cls, s)
+        o.k, o.a, o.b = k, a, b
+        return o
+
+
+class Source:
+    def __init__(self, path):
+        raw = open(path, encoding="utf-8", errors="replace").read()
+        self.path = path
+        self.text = strip_preprocessor(strip_hooks(strip_comments(raw)))
+        self.toks = []
+        pos = 0
+        while pos < len(self.text):
+            m = TOKEN_RE.match(self.text, pos)
+            if not m:
+                fail("%s: cannot tokenise at %r" % (os.path.basename(path), self.text[pos:pos + 30]))
+            if m.lastgroup != "ws":
+                self.toks.append(Tok(m.group(0), m.lastgroup, m.start(), m.end()))
+            pos = m.end()
+
+    def span_text(self, toks):
+        """source text of a run of tokens, blanks squeezed to one"""
+        if not toks:
+            return ""
+        return re.sub(r"\s+", " ", self.text[toks[0].a:toks[-1].b]).strip()
+
+
+OPEN = {"(": ")", "[": "]", "{": "}"}
+
+
+def match_close(toks, i):
+    """index of the bracket closing toks[i] (one of ( [ {)"""
+    depth = 0
+    j = i
+    while j < len(toks):
+        t = toks[j]
+        if t.k == "op":
+            if t in OPEN:
+                depth += 1
+            elif t in (")", "]", "}"):
+                depth -= 1
+                if depth == 0:
+                    if t != OPEN[toks[i]]:
+                        fail("mismatched brackets near %s" % " ".join(toks[i:i + 8]))
+                    return j
+        j += 1
+    fail("unbalanced brackets near %s" % " ".join(toks[i:i + 8]))
+
+
+def match_angle(toks, i):
+    """index of the `>` closing the `<` at toks[i]; parens nest, `;{}` abort (-1)"""
+    depth = 0
+    j = i
+    while j < len(toks):
+        t = toks[j]
+        if t.k == "op":
+            if t == "<":
+                depth += 1
+            elif t == ">":
+                depth -= 1
+                if depth == 0:
+                    return j
+            elif t in ("(", "["):
+                j = match_close(toks, j)
+            elif t in (";", "{", "}", ")", "]", "&&", "||", "==", "!=", "=", "?"):
+                return -1
+        j += 1
+    return -1
+
+
+def split_commas(toks):
+    """split a token list at top-level commas (brackets and template angles nest)"""
+    parts, cur = [], []
+    j = 0
+    while j < len(toks):
+        t = toks[j]
+        if t.k == "op" and t in OPEN:
+            e = match_close(toks, j)
+            cur += toks[j:e + 1]
+            j = e + 1
+            continue
+        if t.k == "op" and t == "<" and j > 0 and (toks[j - 1].k == "id"):
+            e = match_angle(toks, j)
+            if e > 0:
+                cur += toks[j:e + 1]
+                j = e + 1
+                continue
+        if t.k == "op" and t == ",":
+            parts.append(cur)
+            cur = []
+        else:
+            cur.append(t)
+        j += 1
+    if cur or parts:
+        parts.append(cur)
+    return parts
+
+
+# ============================================================================ declarations
+
+class Var:
+    def __init__(self, name, type_toks, init, init_kind, static, const, access, cls):
+        self.name, self.type_toks, self.init, self.init_kind = name, type_toks, init, init_kind
+        self.static, self.const, self.access, self.cls = static, const, access, cls
+
+
+class Func:
+    def __init__(self, name, cls, params, body, inits, static, access, ret_toks):
+        self.name, self.cls, self.params, self.body, self.inits = name, cls, params, body, inits
+        self.static, self.access, self.ret_toks = static, access, ret_toks
+
+
+class Cls:
+    def __init__(self, name, bases, key):
+        self.name, self.bases, self.key = name, bases, key     # bases: [(access, [tokens])]
+        self.vars, self.funcs, self.aliases = {}, {}, {}
+        self.var_order = []
+
+
+SPECIFIERS = ("static", "inline", "constexpr", "virtual", "explicit", "friend", "extern", "mutable", "thread_local",
+              "typename", "const", "volatile")
+
+
+class Unit:
+    """what the declaration scanner found in one file"""
+
+    def __init__(self, source):
+        self.src = source
+        self.classes, self.vars, self.funcs, self.aliases = {}, {}, {}, {}
+        self.scan(source.toks, 0, len(source.toks), None, None)
+
+    # -- helpers
+    def skip_to_semicolon(self, toks, i, end):
+        while i < end:
+            t = toks[i]
+            if t.k == "op" and t in OPEN:
+                i = match_close(toks, i) + 1
+                continue
+            if t == ";" and t.k == "op":
+                return i + 1
+            i += 1
+        return end
+
+    def scan(self, toks, i, end, cls, access):
+        while i < end:
+            t = toks[i]
+            if t.k == "op" and t == ";":
+                i += 1
+            elif t == "namespace" and t.k == "id":
+                j = i + 1
+                while j < end and not (toks[j].k == "op" and toks[j] in ("{", ";", "=")):
+                    j += 1
+                if j < end and toks[j] == "{":
+                    e = match_close(toks, j)
+                    self.scan(toks, j + 1, e, None, None)
+                    i = e + 1
+                else:
+                    i = self.skip_to_semicolon(toks, i, end)
+            elif t == "template" and t.k == "id" and i + 1 < end and toks[i + 1] == "<":
+                e = match_angle(toks, i + 1)
+                if e < 0:
+                    fail("unbalanced template parameter list")
+                i = e + 1
+            elif t.k == "id" and t in ("public", "private", "protected") and i + 1 < end and toks[i + 1] == ":":
+                access = str(t)
+                i += 2
+            elif t == "using" and t.k == "id":
+                e = self.skip_to_semicolon(toks, i, end)
+                if i + 2 < end and toks[i + 1].k == "id" and toks[i + 2] == "=":
+                    (cls.aliases if cls else self.aliases)[str(toks[i + 1])] = [x for x in toks[i + 3:e - 1] if x != "typename"]
+                i = e
+            elif t == "typedef" and t.k == "id":
+                e = self.skip_to_semicolon(toks, i, end)
+                body = toks[i + 1:e - 1]
+                if len(body) >= 2 and body[-1].k == "id":
+                    (cls.aliases if cls else self.aliases)[str(body[-1])] = [x for x in body[:-1] if x != "typename"]
+                i = e
+            elif t.k == "id" and t in ("friend", "static_assert", "enum"):
+                i = self.skip_to_semicolon(toks, i, end)
+            elif t.k == "id" and t in ("class", "struct") and i + 1 < end and toks[i + 1].k == "id" and self.is_class_def(toks, i, end):
+                i = self.scan_class(toks, i, end)
+            else:
+                i = self.scan_declaration(toks, i, end, cls, access)
+
+    def is_class_def(self, toks, i, end):
+        j = i + 2
+        if j < end and toks[j] == "final":
+            j += 1
+        return j < end and toks[j].k == "op" and toks[j] in (":", "{")
+
+    def scan_class(self, toks, i, end):
+        key, name = str(toks[i]), str(toks[i + 1])
+        j = i + 2
+        if toks[j] == "final":
+            j += 1
+        bases = []
+        if toks[j] == ":":
+            k = j + 1
+            while k < end and toks[k] != "{":
+                k += 1
+            for part in split_commas(toks[j + 1:k]):
+                acc = "private" if key == "class" else "public"
+                rest = []
+                for x in part:
+                    if x.k == "id" and x in ("public", "private", "protected"):
+                        acc = str(x)
+                    elif x.k == "id" and x == "virtual":
+                        pass
+                    else:
+                        rest.append(x)
+                bases.append((acc, rest))
+            j = k
+        e = match_close(toks, j)
+        c = Cls(name, bases, key)
+        if name in self.classes:
+            fail("class %s is defined twice" % name)
+        self.classes[name] = c
+        self.scan(toks, j + 1, e, c, "private" if key == "class" else "public")
+        if e + 1 >= end or toks[e + 1] != ";":
+            fail("declarators after the body of class %s are not supported" % name)
+        return e + 2
+
+    def scan_declaration(self, toks, i, end, cls, access):
+        # attributes in front
+        while i + 1 < end and toks[i] == "[" and toks[i + 1] == "[":
+            i = match_close(toks, i) + 1
+        head = []
+        j = i
+        while j < end:
+            t = toks[j]
+            if t.k == "op":
+                if t == "<":
+                    e = match_angle(toks, j)
+                    if e < 0:
+                        fail("cannot read the declaration starting with: %s" % " ".join(toks[i:i + 12]))
+                    head += toks[j:e + 1]
+                    j = e + 1
+                    continue
+                if t == "[":
+                    e = match_close(toks, j)
+                    if j + 1 < end and toks[j + 1] == "[":     # attribute
+                        j = e + 1
+                        continue
+                    head += toks[j:e + 1]
+                    j = e + 1
+                    continue
+                if t in ("(", "=", "{", ";"):
+                    break
+                if t == "}":
+                    fail("stray } in declarations")
+            elif t == "operator":
+                head.append(t)
+                j += 1
+                if j + 1 < end and toks[j] == "(" and toks[j + 1] == ")":
+                    head += toks[j:j + 2]
+                    j += 2
+                while j < end and toks[j] != "(":
+                    head.append(toks[j])
+                    j += 1
+                break
+            elif t in ("decltype", "alignas") and j + 1 < end and toks[j + 1] == "(":
+                e = match_close(toks, j + 1)
+                head += toks[j:e + 1]
+                j = e + 1
+                continue
+            head.append(t)
+            j += 1
+        if j >= end:
+            if head:
+                fail("unterminated declaration: %s" % " ".join(head[:12]))
+            return end
+        stop = toks[j]
+        if stop == "(":
+            return self.scan_function(toks, i, j, end, head, cls, access)
+        # variable (or a forward declaration)
+        init, kind = None, None
+        if stop == ";":
+            nxt = j + 1
+        elif stop == "=":
+            nxt = self.skip_to_semicolon(toks, j, end)
+            init, kind = toks[j + 1:nxt - 1], "="
+        else:
+            e = match_close(toks, j)
+            init, kind = toks[j + 1:e], "{"
+            if e + 1 >= end or toks[e + 1] != ";":
+                fail("cannot read the declaration: %s" % " ".join(head[:12]))
+            nxt = e + 2
+        self.add_var(head, init, kind, cls, access)
+        return nxt
+
+    def split_name(self, head):
+        """head tokens -> (specifier/type tokens, owner class or None, name)"""
+        if not head:
+            return None
+        k = len(head) - 1
+        if "operator" in head:
+            k = head.index("operator")
+            name = "".join(head[k:])
+        else:
+            if head[k].k != "id":
+                return None
+            name = str(head[k])
+            if k > 0 and head[k - 1] == "~":
+                k -= 1
+                name = "~" + name
+        owner = None
+        if k >= 2 and head[k - 1] == "::":
+            q = k - 2
+            if head[q] == ">":           # Class< T>::name
+                depth = 0
+                while q >= 0:
+                    if head[q] == ">":
+                        depth += 1
+                    elif head[q] == "<":
+                        depth -= 1
+                        if depth == 0:
+                            break
+                    q -= 1
+                q -= 1
+            if q < 0 or head[q].k != "id":
+                return None
+            owner = str(head[q])
+            k = q
+            while k >= 2 and head[k - 1] == "::" and head[k - 2].k == "id":    # ns::Class::name
+                k -= 2
+        return head[:k], owner, name
+
+    def add_var(self, head, init, kind, cls, access):
+        sn = self.split_name(head)
+        if sn is None:
+            return
+        pre, owner, name = sn
+        ty = [x for x in pre if not (x.k == "id" and x in ("static", "inline", "constexpr", "extern", "mutable", "thread_local"))]
+        if not ty or (len(ty) == 1 and ty[0] in ("class", "struct", "union", "enum")):
+            return
+        if "thread_local" in pre:
+            return
+        const = "constexpr" in pre or (bool(ty) and ty[0] == "const") or (bool(ty) and ty[-1] == "const")
+        if owner and not cls:      # out-of-class definition of a static member: keeps the initialiser
+            c = self.classes.get(owner)
+            if c and name in c.vars:
+                if init is not None and c.vars[name].init is None:
+                    c.vars[name].init, c.vars[name].init_kind = init, kind
+                return
+            return
+        v = Var(name, ty, init, kind, "static" in pre, const, access, cls.name if cls else None)
+        if cls:
+            if name in cls.vars:
+                fail("member %s::%s is declared twice" % (cls.name, name))
+            cls.vars[name] = v
+            cls.var_order.append(name)
+        else:
+            self.vars.setdefault(name, v)
+
+    def scan_function(self, toks, i, lp, end, head, cls, access):
+        rp = match_close(toks, lp)
+        sn = self.split_name(head)
+        j = rp + 1
+        ret_extra = []
+        while j < end:
+            t = toks[j]
+            if t.k == "id" and t in ("const", "volatile", "override", "final", "mutable"):
+                j += 1
+            elif t.k == "id" and t in ("noexcept", "throw"):
+                j += 1
+                if j < end and toks[j] == "(":
+                    j = match_close(toks, j) + 1
+            elif t.k == "op" and t in ("&", "&&"):
+                j += 1
+            elif t.k == "op" and t == "[" and j + 1 < end and toks[j + 1] == "[":
+                j = match_close(toks, j) + 1
+            elif t.k == "op" and t == "->":
+                j += 1
+                while j < end and not (toks[j].k == "op" and toks[j] in ("{", ";", "=")):
+                    ret_extra.append(toks[j])
+                    j += 1
+            else:
+                break
+        if j >= end:
+            fail("unterminated function declaration: %s" % " ".join(head[:12]))
+        t = toks[j]
+        body, inits = None, []
+        if t == ";":
+            nxt = j + 1
+        elif t == "=":
+            nxt = self.skip_to_semicolon(toks, j, end)
+        elif t == "{" or t == ":":
+            if t == ":":
+                j += 1
+                while True:
+                    k = j
+                    while k < end and not (toks[k].k == "op" and toks[k] in ("(", "{")):
+                        if toks[k] == "<":
+                            e = match_angle(toks, k)
+                            if e < 0:
+                                fail("cannot read a member initialiser")
+                            k = e
+                        k += 1
+                    if k >= end:
+                        fail("cannot read the member initialiser list of %s" % " ".join(head[-3:]))
+                    e = match_close(toks, k)
+                    inits.append((toks[j:k], toks[k + 1:e], str(toks[k])))
+                    j = e + 1
+                    if j < end and toks[j] == "...":
+                        j += 1
+                    if j < end and toks[j] == ",":
+                        j += 1
+                        continue
+                    break
+                if j >= end or toks[j] != "{":
+                    fail("cannot read the member initialiser list of %s" % " ".join(head[-3:]))
+            e = match_close(toks, j)
+            body = toks[j:e + 1]
+            nxt = e + 1
+        else:
+            # `T name( args) <something else>`: not a function; skip the statement
+            return self.skip_to_semicolon(toks, i, end)
+        if sn is None:
+            return nxt
+        pre, owner, name = sn
+        params = []
+        ptoks = toks[lp + 1:rp]
+        if not (len(ptoks) == 1 and ptoks[0] == "void"):
+            for part in split_commas(ptoks):
+                if "=" in part:
+                    part = part[:part.index("=")]
+                pack = "..." in part
+                part = [x for x in part if x != "..."]
+                pname = None
+                if len(part) >= 2 and part[-1].k == "id" and part[-2] != "::" and part[-1] not in ("const", "int", "char", "bool"):
+                    pname = str(part[-1])
+                    part = part[:-1]
+                params.append((part, pname, pack))
+        owner_cls = cls.name if cls else owner
+        f = Func(name, owner_cls, params, body, inits, "static" in pre, access if cls else None,
+                 [x for x in pre if not (x.k == "id" and x in SPECIFIERS and x != "const")] + ret_extra)
+        table = self.funcs
+        if owner_cls:
+            c = cls or self.classes.get(owner_cls)
+            if c is None:
+                return nxt
+            table = c.funcs
+        table.setdefault(name, []).append(f)
+        return nxt
+
+
+# ============================================================================ statements / expressions
+
+BUILTIN_TYPES = ("bool", "char", "short", "int", "long", "unsigned", "signed", "float", "double", "void", "auto",
+                 "size_t", "wchar_t")
+CASTS = ("static_cast", "const_cast", "reinterpret_cast", "dynamic_cast")
+UNSUPPORTED_STMT = ("while", "for", "do", "switch", "try", "goto", "throw", "case", "default", "break", "continue",
+                    "co_return", "co_await", "co_yield", "asm")
+BINPREC = {"||": 1, "&&": 2, "|": 3, "^": 4, "&": 5, "==": 6, "!=": 6, "<": 7, ">": 7, "<=": 7, ">=": 7,
+           "+": 9, "-": 9, "*": 10, "/": 10, "%": 10}
+ASSIGN_OPS = ("=", "+=", "-=", "*=", "/=", "%=", "&=", "|=", "^=")
+
+
+class Parser:
+    """recursive descent over a token list.  Expressions are tuples:
+       ("name", [parts], targs) ("lit", text) ("this",) ("call", f, args) ("member", obj, op, name)
+       ("unary", op, e) ("binary", op, a, b) ("assign", op, a, b) ("cond", c, a, b) ("new", type, args)
+       ("cast", type, e) ("pack", e) ("lambda", captures, params, body) ("construct", type, args) ("index", a, b)
+       statements: ("block", [..]) ("if", c, a, b) ("return", e) ("decl", type, name, init, kind) ("expr", e) ("empty",)"""
+
+    def __init__(self, toks, what):
+        self.t, self.i, self.what = list(toks), 0, what
+
+    # -- token helpers
+    def peek(self, k=0):
+        j = self.i + k
+        return self.t[j] if j < len(self.t) else None
+
+    def at(self, s, k=0):
+        x = self.peek(k)
+        return x is not None and x == s and x.k in ("op", "id")
+
+    def eat(self, s):
+        if not self.at(s):
+            fail("%s: expected `%s` at: %s" % (self.what, s, " ".join(self.t[self.i:self.i + 10])))
+        self.i += 1
+
+    def err(self, msg):
+        fail("%s: %s at: %s" % (self.what, msg, " ".join(self.t[self.i:self.i + 12])))
+
+    # -- statements
+    def parse_body(self):
+        s = self.statement()
+        if self.i != len(self.t):
+            self.err("trailing tokens")
+        return s
+
+    def statement(self):
+        x = self.peek()
+        if x is None:
+            self.err("unexpected end")
+        while self.at("[") and self.at("[", 1):      # attribute
+            self.i = match_close(self.t, self.i) + 1
+            x = self.peek()
+        if x.k == "op" and x == "{":
+            e = match_close(self.t, self.i)
+            self.i += 1
+            body = []
+            while self.i < e:
+                body.append(self.statement())
+            self.i = e + 1
+            return ("block", body)
+        if x.k == "op" and x == ";":
+            self.i += 1
+            return ("empty",)
+        if x.k == "id":
+            if x in UNSUPPORTED_STMT:
+                self.err("unsupported statement `%s`" % x)
+            if x == "if":
+                self.i += 1
+                if self.at("constexpr"):
+                    self.err("unsupported `if constexpr`")
+                self.eat("(")
+                e = match_close(self.t, self.i - 1)
+                if any(y == ";" and y.k == "op" for y in self.t[self.i:e]):
+                    self.err("unsupported if with init-statement")
+                c = self.expression()
+                self.eat(")")
+                a = self.statement()
+                b = None
+                if self.at("else"):
+                    self.i += 1
+                    b = self.statement()
+                return ("if", c, a, b)
+            if x == "return":
+                self.i += 1
+                if self.at(";"):
+                    self.i += 1
+                    return ("return", None)
+                e = self.expression()
+                self.eat(";")
+                return ("return", e)
+            if x in ("using", "typedef", "static_assert", "namespace", "class", "struct", "enum", "template"):
+                self.err("unsupported local declaration `%s`" % x)
+        d = self.try_declaration()
+        if d is not None:
+            return d
+        e = self.expression()
+        self.eat(";")
+        return ("expr", e)
+
+    def try_type(self):
+        """type at the cursor -> token list (cursor after it), or None (cursor unchanged)"""
+        save = self.i
+        ty = []
+        while self.peek() is not None and self.peek().k == "id" and self.peek() in ("const", "constexpr", "static", "volatile", "typename",
+                                                                                    "unsigned", "signed", "long", "short"):
+            ty.append(self.peek())
+            self.i += 1
+        if self.at("::"):
+            ty.append(self.peek())
+            self.i += 1
+        named = False
+        while True:
+            x = self.peek()
+            if x is None or x.k != "id" or x in ("new", "return", "this", "true", "false", "nullptr", "operator") + CASTS:
+                break
+            ty.append(x)
+            self.i += 1
+            named = True
+            if self.at("<"):
+                e = match_angle(self.t, self.i)
+                if e < 0:
+                    self.i = save
+                    return None
+                ty += self.t[self.i:e + 1]
+                self.i = e + 1
+            if self.at("::") and self.peek(1) is not None and self.peek(1).k == "id" and self.peek(1) != "operator":
+                ty.append(self.peek())
+                self.i += 1
+                continue
+            break
+        if self.at("::"):            # Class::operator=( ..) and the like: an expression
+            self.i = save
+            return None
+        if not named and not any(y in ("unsigned", "signed", "long", "short") for y in ty):
+            self.i = save
+            return None
+        while self.peek() is not None and ((self.peek().k == "op" and self.peek() in ("*", "&", "&&")) or self.at("const")):
+            ty.append(self.peek())
+            self.i += 1
+        return ty
+
+    def try_declaration(self):
+        save = self.i
+        ty = self.try_type()
+        if ty is None:
+            return None
+        x = self.peek()
+        if x is None or x.k != "id" or x in ("operator", "new", "this", "return") or not (self.peek(1) is not None and self.peek(1).k == "op" and self.peek(1) in ("=", "(", "{", ";")):
+            self.i = save
+            return None
+        name = str(x)
+        self.i += 1
+        k = self.peek()
+        if k == ";":
+            self.i += 1
+            return ("decl", ty, name, [], None)
+        if k == "=":
+            self.i += 1
+            if self.at("{"):
+                args = self.arg_list("{", "}")
+                self.eat(";")
+                return ("decl", ty, name, args, "{")
+            e = self.assignment()
+            self.eat(";")
+            return ("decl", ty, name, [e], "=")
+        args = self.arg_list(str(k), OPEN[k])
+        if self.at(","):
+            self.err("unsupported declaration with several declarators")
+        self.eat(";")
+        return ("decl", ty, name, args, str(k))
+
+    # -- expressions
+    def arg_list(self, op, cl):
+        self.eat(op)
+        args = []
+        if self.at(cl):
+            self.i += 1
+            return args
+        while True:
+            e = self.assignment()
+            if self.at("..."):
+                self.i += 1
+                e = ("pack", e)
+            args.append(e)
+            if self.at(","):
+                self.i += 1
+                continue
+            break
+        self.eat(cl)
+        return args
+
+    def expression(self):
+        e = self.assignment()
+        if self.at(","):
+            self.err("unsupported comma operator")
+        return e
+
+    def assignment(self):
+        c = self.binary(1)
+        if self.at("?"):
+            self.i += 1
+            a = self.assignment()
+            self.eat(":")
+            b = self.assignment()
+            return ("cond", c, a, b)
+        x = self.peek()
+        if x is not None and x.k == "op" and x in ASSIGN_OPS:
+            self.i += 1
+            if self.at("{"):
+                self.err("unsupported assignment from a braced list")
+            r = self.assignment()
+            return ("assign", str(x), c, r)
+        return c
+
+    def binary(self, prec):
+        a = self.unary()
+        while True:
+            x = self.peek()
+            if x is None or x.k != "op" or x not in BINPREC or BINPREC[x] < prec:
+                return a
+            self.i += 1
+            b = self.binary(BINPREC[x] + 1)
+            a = ("binary", str(x), a, b)
+
+    def unary(self):
+        x = self.peek()
+        if x is None:
+            self.err("unexpected end of expression")
+        if x.k == "op" and x in ("!", "*", "&", "-", "+", "~"):
+            self.i += 1
+            return ("unary", str(x), self.unary())
+        if x.k == "op" and x in ("++", "--"):
+            self.err("unsupported operator `%s`" % x)
+        if x.k == "id" and x in ("sizeof", "alignof", "delete", "throw", "co_await", "noexcept", "typeid"):
+            self.err("unsupported operator `%s`" % x)
+        return self.postfix(self.primary())
+
+    def postfix(self, e):
+        while True:
+            x = self.peek()
+            if x is None or x.k != "op":
+                return e
+            if x == "(":
+                e = ("call", e, self.arg_list("(", ")"))
+            elif x in (".", "->"):
+                self.i += 1
+                if self.at("template"):
+                    self.i += 1
+                if self.at("~"):
+                    self.err("unsupported explicit destructor call")
+                n = self.qualified_name()
+                e = ("member", e, str(x), n)
+            elif x == "[":
+                self.i += 1
+                b = self.expression()
+                self.eat("]")
+                e = ("index", e, b)
+            elif x in ("++", "--", "->*"):
+                self.err("unsupported operator `%s`" % x)
+            else:
+                return e
+
+    def qualified_name(self):
+        """id ( :: id )*, each part possibly followed by template arguments -> ("name", parts, targs of the last part)"""
+        parts, targs = [], None
+        if self.at("::"):
+            self.i += 1
+        while True:
+            x = self.peek()
+            if x is None or x.k != "id":
+                self.err("identifier expected")
+            self.i += 1
+            if x == "operator":
+                op = ""
+                while self.peek() is not None and not self.at("("):
+                    op += self.peek()
+                    self.i += 1
+                if op == "" and self.at("(") and self.at(")", 1):
+                    op = "()"
+                    self.i += 2
+                parts.append("operator" + op)
+                return ("name", parts, None)
+            parts.append(str(x))
+            targs = None
+            if self.at("<"):
+                e = match_angle(self.t, self.i)
+                if e > 0 and e + 1 < len(self.t) and self.t[e + 1].k == "op" and self.t[e + 1] in ("(", "::", "{"):
+                    targs = self.t[self.i + 1:e]
+                    self.i = e + 1
+            if self.at("::") and self.peek(1) is not None and self.peek(1).k == "id":
+                self.i += 1
+                continue
+            return ("name", parts, targs)
+
+    def primary(self):
+        x = self.peek()
+        if x.k in ("num", "str", "chr"):
+            self.i += 1
+            return ("lit", str(x))
+        if x.k == "op":
+            if x == "(":
+                e = match_close(self.t, self.i)
+                inner = self.t[self.i + 1:e]
+                if inner and inner[-1].k == "op" and inner[-1] in ("*", "&") and all(
+                        y.k == "id" or (y.k == "op" and y in ("::", "<", ">", "*", "&", ",")) for y in inner):
+                    self.i = e + 1                     # C-style cast to a pointer / reference type
+                    return ("cast", inner, self.unary())
+                if inner and all(y.k == "id" and y in BUILTIN_TYPES + ("const",) for y in inner):
+                    self.i = e + 1                     # (void) x, (bool) x
+                    return ("cast", inner, self.unary())
+                self.i += 1
+                r = self.expression()
+                self.eat(")")
+                return r
+            if x == "[":
+                return self.lambda_expr()
+            if x == "::":
+                return self.named()
+            self.err("unexpected token in expression")
+        if x in ("true", "false", "nullptr", "NULL"):
+            self.i += 1
+            return ("lit", str(x))
+        if x == "this":
+            self.i += 1
+            return ("this",)
+        if x == "new":
+            self.i += 1
+            if self.at("("):
+                self.err("unsupported placement / nothrow new")
+            ty = self.try_type()
+            if ty is None:
+                self.err("type expected after new")
+            args = []
+            if self.at("("):
+                args = self.arg_list("(", ")")
+            elif self.at("{"):
+                args = self.arg_list("{", "}")
+            if self.at("["):
+                self.err("unsupported array new")
+            return ("new", ty, args)
+        if x in CASTS:
+            self.i += 1
+            if not self.at("<"):
+                self.err("template argument expected")
+            e = match_angle(self.t, self.i)
+            if e < 0:
+                self.err("unbalanced cast")
+            ty = self.t[self.i + 1:e]
+            self.i = e + 1
+            self.eat("(")
+            v = self.expression()
+            self.eat(")")
+            return ("cast", ty, v)
+        return self.named()
+
+    def named(self):
+        n = self.qualified_name()
+        if self.at("{"):
+            return ("construct", n, self.arg_list("{", "}"))
+        return n
+
+    def lambda_expr(self):
+        e = match_close(self.t, self.i)
+        caps = split_commas(self.t[self.i + 1:e])
+        self.i = e + 1
+        params = []
+        if self.at("("):
+            e = match_close(self.t, self.i)
+            ptoks = self.t[self.i + 1:e]
+            for part in split_commas(ptoks):
+                pack = "..." in part
+                part = [y for y in part if y != "..."]
+                pname = None
+                if len(part) >= 2 and part[-1].k == "id":
+                    pname = str(part[-1])
+                    part = part[:-1]
+                params.append((part, pname, pack))
+            self.i = e + 1
+        while not self.at("{"):
+            x = self.peek()
+            if x is None:
+                self.err("lambda without body")
+            if x.k == "id" and x in ("mutable", "constexpr"):
+                self.i += 1
+            elif x.k == "id" and x == "noexcept":
+                self.i += 1
+                if self.at("("):
+                    self.i = match_close(self.t, self.i) + 1
+            elif x.k == "op" and x == "->":
+                self.i += 1
+                if self.try_type() is None:
+                    self.err("lambda return type expected")
+            else:
+                self.err("cannot read the lambda declarator")
+        e = match_close(self.t, self.i)
+        body = Parser(self.t[self.i:e + 1], self.what + " (lambda)").parse_body()
+        self.i = e + 1
+        return ("lambda", caps, params, body)
+
+
+# ============================================================================ symbolic execution
+
 def squeeze(s):
     return re.sub(r"\s+", "", s)
 
 
-def braced(src, start):
-    """text between the brace at/after `start` and its match, and the index after it"""
-    i = src.index("{", start)
-    depth, j = 0, i
-    while j < len(src):
-        if src[j] == "{":
-            depth += 1
-        elif src[j] == "}":
-            depth -= 1
-            if depth == 0:
-                return src[i + 1:j], j + 1
-        j += 1
-    raise ValueError("unbalanced braces")
+def type_text(toks):
+    return "".join(("const " if x == "const" else str(x)) for x in toks).strip()
 
 
-def order_of(txt):
-    """memory order named in an argument list tail (None -> seq_cst)"""
-    if not txt:
-        return "seq_cst"
-    m = re.search(r"memory_order_(\w+)|memory_order::(\w+)", txt)
-    if not m:
-        raise ValueError("unrecognised memory order: " + txt)
-    return m.group(1) or m.group(2)
+GUARD_TYPES = ("std::lock_guard", "std::scoped_lock", "std::unique_lock")
+OTHER_MUTEX = ("std::recursive_mutex", "std::timed_mutex", "std::recursive_timed_mutex", "std::shared_mutex",
+               "std::shared_timed_mutex")
 
 
-def class_body(src, name):
-    m = re.search(r"\bclass\s+" + name + r"\b[^;{]*\{", src)
-    if not m:
-        raise ValueError("class %s not found" % name)
-    body, _ = braced(src, m.start())
-    return src[m.start():src.index("{", m.start())], body
+class State:
+    """one path"""
+
+    def __init__(self):
+        self.frames = []       # frame = {"scopes": [ {"vars": {}, "guards": []} ], "outer": dict or None, "this": bool}
+        self.events = []
+        self.conds = {}        # index of a read event -> True (non-null / true) | False
+        self.order = []        # read indices in the order they were decided
+        self.held = []         # mutexes held
+        self.owner = {}        # owning pointer -> value it is known to hold (set while locked, on this path)
+        self.ret = None
+        self.returned = False
+        self.guards = 0
+
+    def clone(self):
+        return copy.deepcopy(self)
 
 
-MO = r"(?:,(std::memory_order(?:_|::)\w+))?"
+class Exec:
+    """symbolic executor for the functions of one file"""
+
+    MAX_DEPTH = 8
+
+    def __init__(self, unit, cls):
+        self.unit, self.cls = unit, cls
+        self.depth = 0
+        self.parsed = {}
+
+    # ---------------------------------------------------------------- types and roles
+    def resolve_type(self, toks, n=0):
+        if n > 8:
+            fail("alias cycle in " + type_text(toks))
+        out, changed = [], False
+        for k, x in enumerate(toks):
+            if x.k == "id" and not (k > 0 and toks[k - 1] == "::"):
+                al = None
+                for c in self.class_chain():
+                    if x in c.aliases:
+                        al = c.aliases[str(x)]
+                        break
+                if al is None and x in self.unit.aliases:
+                    al = self.unit.aliases[str(x)]
+                if al is not None and not (k + 1 < len(toks) and toks[k + 1] == "::"):
+                    out += al
+                    changed = True
+                    continue
+            out.append(x)
+        return self.resolve_type(out, n + 1) if changed else out
+
+    def class_chain(self):
+        """the class under translation and its direct bases defined in the same file"""
+        res = []
+        if self.cls is not None:
+            res.append(self.cls)
+            for _, b in self.cls.bases:
+                names = [x for x in b if x.k == "id"]
+                if names and str(names[-1]) in self.unit.classes and "<" not in b:
+                    res.append(self.unit.classes[str(names[-1])])
+        return res
+
+    def role_of(self, type_toks):
+        ty = self.resolve_type(type_toks)
+        ref = any(x.k == "op" and x in ("&", "&&") for x in ty)
+        core = [x for x in ty if not (x.k == "id" and x in ("const", "volatile", "static", "constexpr", "typename", "mutable"))
+                and not (x.k == "op" and x in ("&", "&&"))]
+        s = "".join(core)
+        if s.startswith("::"):
+            s = s[2:]
+        if s == "std::mutex":
+            return "mutex", ref
+        if s in OTHER_MUTEX:
+            return "othermutex", ref
+        if s.endswith("*"):
+            return "plain_ptr", ref
+        if s == "std::atomic<bool>" or s == "std::atomic_bool":
+            return "atomic_bool", ref
+        if s.startswith("std::atomic<") and s.endswith("*>"):
+            return "atomic_ptr", ref
+        if s.startswith("std::atomic"):
+            return "atomic_other", ref
+        if s.startswith("std::unique_ptr<"):
+            return "unique_ptr", ref
+        if s == "bool":
+            return "plain_bool", ref
+        for g in GUARD_TYPES:
+            if s == g or s.startswith(g + "<"):
+                if g == "std::scoped_lock" and s != g and len(split_commas(core[core.index("<") + 1:-1])) != 1:
+                    fail("std::scoped_lock on several mutexes is not covered")
+                return "guard", ref
+        if s == "auto" or s == "auto*":
+            return "auto", ref
+        return "other:" + s, ref
+
+    # ---------------------------------------------------------------- names
+    def find_member(self, name):
+        for c in self.class_chain():
+            if name in c.vars:
+                return c, c.vars[name]
+        return None, None
+
+    def shared_value(self, c, v):
+        role, _ = self.role_of(v.type_toks)
+        return ("shared", c.name if c else None, v.name, role)
+
+    def lookup(self, st, parts):
+        """value of a (qualified) name"""
+        chain = self.class_chain()
+        if len(parts) > 1 and chain and parts[0] in [c.name for c in chain]:
+            parts = parts[1:]
+        if len(parts) == 1:
+            n = parts[0]
+            fr = st.frames[-1]
+            for sc in reversed(fr["scopes"]):
+                if n in sc["vars"]:
+                    return sc["vars"][n]
+            if fr["outer"] is not None and n in fr["outer"]:
+                return fr["outer"][n]
+            c, v = self.find_member(n)
+            if v is not None:
+                if not v.static and not fr["this"]:
+                    fail("non-static member %s used where no object is available" % n)
+                return self.var_value(st, c, v)
+            if n in self.unit.vars:
+                return self.var_value(st, None, self.unit.vars[n])
+        if parts[0] == "std" and len(parts) >= 2:
+            m = re.match(r"^memory_order_(\w+)$", parts[-1])
+            if m and len(parts) == 2:
+                return ("order", m.group(1))
+            if len(parts) == 3 and parts[1] == "memory_order":
+                return ("order", parts[2])
+            return ("stdname", "::".join(parts))
+        if len(parts) > 1 and parts[-1] in self.unit.vars:       # ns::constant
+            return self.var_value(st, None, self.unit.vars[parts[-1]])
+        fail("unknown name %s" % "::".join(parts))
+
+    def var_value(self, st, c, v):
+        role, _ = self.role_of(v.type_toks)
+        if v.const and v.init is not None and role not in ("mutex", "atomic_ptr", "atomic_bool", "unique_ptr"):
+            key = ("const", c.name if c else None, v.name)
+            if key in self.parsed:
+                return self.parsed[key]
+            p = Parser(v.init, "initialiser of %s" % v.name)
+            if v.init_kind == "{" and not v.init:
+                fail("constant %s without value" % v.name)
+            e = p.assignment()
+            if p.i != len(p.t):
+                fail("cannot read the initialiser of the constant %s" % v.name)
+            s0 = State()
+            s0.frames.append({"scopes": [{"vars": {}, "guards": []}], "outer": None, "this": False})
+            r = self.ev(s0, e)
+            if len(r) != 1 or r[0][0].events:
+                fail("the initialiser of the constant %s is not a constant" % v.name)
+            self.parsed[key] = r[0][1]
+            return r[0][1]
+        if v.const:
+            fail("constant %s without a readable initialiser" % v.name)
+        return self.shared_value(c, v)
+
+    # ---------------------------------------------------------------- values
+    def read_event(self, st, sh, order):
+        st.events.append(("read", sh[1:], order, tuple(st.held)))
+        return ("read", len(st.events) - 1)
+
+    def rvalue(self, st, v):
+        """content of a shared object named as an rvalue (implicit load / plain read)"""
+        if v[0] == "shared":
+            role = v[3]
+            if role in ("atomic_ptr", "atomic_bool"):
+                return self.read_event(st, v, "seq_cst")
+            if role in ("plain_ptr", "plain_bool"):
+                return self.read_event(st, v, "none")
+            if role == "unique_ptr":
+                return self.owner_get(st, v)
+            fail("object %s (%s) used as a value" % (v[2], role))
+        if v[0] == "uninit":
+            fail("use of the uninitialised local %s" % v[1])
+        return v
+
+    def owner_get(self, st, sh):
+        if sh[1:] in st.owner and st.held:
+            return st.owner[sh[1:]]
+        return self.read_event(st, sh, "none")
+
+    def truth(self, st, v):
+        """-> [(state, bool)]; forks on the value of a shared read that is not decided on this path"""
+        v = self.rvalue(st, v)
+        k = v[0]
+        if k == "bool":
+            return [(st, v[1])]
+        if k == "null":
+            return [(st, False)]
+        if k == "int":
+            return [(st, v[1] != 0)]
+        if k in ("new", "addr"):
+            return [(st, True)]
+        if k == "not":
+            return [(s, not b) for s, b in self.truth(st, v[1])]
+        if k == "read":
+            if v[1] in st.conds:
+                return [(st, st.conds[v[1]])]
+            s2 = st.clone()
+            st.conds[v[1]] = True
+            st.order.append(v[1])
+            s2.conds[v[1]] = False
+            s2.order.append(v[1])
+            return [(st, True), (s2, False)]
+        fail("condition on a value the translator cannot follow (%s)" % (v,))
+
+    def order_of(self, vals, k, default="seq_cst"):
+        if len(vals) <= k:
+            return default
+        v = vals[k]
+        if v[0] != "order":
+            fail("memory order argument is not a std::memory_order constant: %s" % (v,))
+        return v[1]
+
+    # ---------------------------------------------------------------- expressions
+    def ev_list(self, st, exprs):
+        res = [(st, [])]
+        for e in exprs:
+            nxt = []
+            for s, vs in res:
+                for s2, v in self.ev(s, e):
+                    nxt.append((s2, vs + [v]))
+            res = nxt
+        return res
+
+    def ev(self, st, e):
+        """-> [(state, value)]"""
+        k = e[0]
+        if k == "lit":
+            s = e[1]
+            if s in ("nullptr", "NULL"):
+                return [(st, ("null",))]
+            if s in ("true", "false"):
+                return [(st, ("bool", s == "true"))]
+            if re.match(r"^\d+[uUlL]*$", s):
+                return [(st, ("int", int(re.sub(r"[uUlL]", "", s))))]
+            return [(st, ("opaque", s))]
+        if k == "this":
+            if not st.frames[-1]["this"]:
+                fail("`this` used where no object is available")
+            return [(st, ("this",))]
+        if k == "name":
+            return [(st, self.lookup(st, e[1]))]
+        if k == "pack":
+            return [(s, ("packval", v)) for s, v in self.ev(st, e[1])]
+        if k == "cast":
+            res = []
+            ty = squeeze("".join(self.resolve_type(e[1])))
+            for s, v in self.ev(st, e[2]):
+                if ty == "void":
+                    res.append((s, ("void",)))
+                elif ty == "bool":
+                    res += [(s2, ("bool", b)) for s2, b in self.truth(s, v)]
+                elif ty.endswith("&") and v == ("deref", ("this",)):
+                    res.append((s, ("castref", ty, v)))      # a base-class view of *this
+                elif ty.endswith("&") and v[0] in ("deref", "shared"):
+                    res.append((s, v))                       # a reference cast names the same object
+                else:
+                    v = self.rvalue(s, v)
+                    if v[0] == "int" and v[1] == 0 and ty.endswith("*"):
+                        v = ("null",)
+                    res.append((s, v))
+            return res
+        if k == "unary":
+            op = e[1]
+            res = []
+            for s, v in self.ev(st, e[2]):
+                if op == "!":
+                    res += [(s2, ("bool", not b)) for s2, b in self.truth(s, v)]
+                elif op == "&":
+                    if v[0] == "shared":
+                        res.append((s, ("addr", v)))
+                    elif v[0] == "deref":
+                        res.append((s, v[1]))
+                    else:
+                        fail("address of a value the translator cannot follow (%s)" % (v,))
+                elif op == "*":
+                    if v[0] == "addr":
+                        res.append((s, v[1]))
+                    elif v[0] == "this":
+                        res.append((s, ("deref", v)))
+                    else:
+                        if v[0] == "shared" and v[3] not in ("unique_ptr", "plain_ptr", "atomic_ptr"):
+                            fail("dereference of %s" % (v,))
+                        shared = v[0] == "shared"
+                        v = self.rvalue(s, v)
+                        if v[0] not in ("read", "new"):
+                            fail("dereference of a value the translator cannot follow (%s)" % (v,))
+                        res.append((s, ("deref", v, shared)))
+                else:
+                    fail("unsupported unary operator %s" % op)
+            return res
+        if k == "binary":
+            return self.ev_binary(st, e)
+        if k == "cond":
+            res = []
+            for s, b in self.bind_truth(st, e[1]):
+                res += self.ev(s, e[2] if b else e[3])
+            return res
+        if k == "assign":
+            return self.ev_assign(st, e)
+        if k == "new":
+            res = []
+            for s, vs in self.ev_list(st, e[2]):
+                s.events.append(("new", type_text(e[1]), tuple(s.held)))
+                res.append((s, ("new", len(s.events) - 1)))
+            return res
+        if k == "lambda":
+            return [(st, self.make_closure(st, e))]
+        if k == "call":
+            return self.ev_call(st, e)
+        if k == "member":
+            res = []
+            for s, o in self.ev(st, e[1]):
+                res.append((s, self.member_of(s, o, e[2], e[3])))
+            return res
+        if k == "construct":
+            return self.ev_call(st, ("call", e[1], e[2]))
+        fail("unsupported expression (%s)" % k)
+
+    def bind_truth(self, st, e):
+        res = []
+        for s, v in self.ev(st, e):
+            res += self.truth(s, v)
+        return res
+
+    def member_of(self, st, o, op, name):
+        """data member named through an object expression (this->x, (*this).x)"""
+        if o[0] == "this" or (o[0] == "deref" and o[1] == ("this",)):
+            parts = name[1]
+            c, v = self.find_member(parts[-1])
+            if v is None:
+                fail("unknown member %s" % parts[-1])
+            return self.var_value(st, c, v)
+        fail("member access on a value the translator cannot follow (%s . %s)" % (o, "::".join(name[1])))
+
+    def ev_binary(self, st, e):
+        op = e[1]
+        if op in ("&&", "||"):
+            res = []
+            for s, a in self.bind_truth(st, e[2]):
+                if (op == "&&" and not a) or (op == "||" and a):
+                    res.append((s, ("bool", a)))
+                else:
+                    res += [(s2, ("bool", b)) for s2, b in self.bind_truth(s, e[3])]
+            return res
+        if op in ("==", "!="):
+            res = []
+            for s, (a, b) in self.ev_list(st, [e[2], e[3]]):
+                a, b = self.rvalue(s, a), self.rvalue(s, b)
+                for x, y in ((a, b), (b, a)):
+                    if x[0] == "null" or (x[0] == "int" and x[1] == 0) or x[0] == "bool":
+                        for s2, t in self.truth(s, y):
+                            eq = (t == x[1]) if x[0] == "bool" else (not t)
+                            res.append((s2, ("bool", eq if op == "==" else not eq)))
+                        break
+                else:
+                    fail("comparison the translator cannot follow (%s %s %s)" % (a, op, b))
+            return res
+        fail("unsupported binary operator %s" % op)
+
+    def ev_assign(self, st, e):
+        if e[1] != "=":
+            fail("unsupported assignment operator %s" % e[1])
+        lhs = e[2]
+        res = []
+        if lhs[0] == "name" and len(lhs[1]) == 1:
+            fr = st.frames[-1]
+            for sc in reversed(fr["scopes"]):
+                if lhs[1][0] in sc["vars"] and sc["vars"][lhs[1][0]][0] != "shared":
+                    for s, v in self.ev(st, e[3]):
+                        v = self.rvalue(s, v)
+                        for sc2 in reversed(s.frames[-1]["scopes"]):
+                            if lhs[1][0] in sc2["vars"]:
+                                sc2["vars"][lhs[1][0]] = v
+                                break
+                        res.append((s, v))
+                    return res
+        for s, (l, r) in self.ev_list(st, [lhs, e[3]]):
+            if l[0] == "castref":
+                if squeeze(l[1]) == "std::thread&" and l[2] == ("deref", ("this",)) and r[0] == "thread":
+                    s.events.append(("start_thread", r[1]))
+                    res.append((s, ("void",)))
+                    continue
+                fail("assignment through a cast the translator cannot follow")
+            if l[0] != "shared":
+                fail("assignment to something the translator cannot follow (%s)" % (l,))
+            role = l[3]
+            if role in ("atomic_ptr", "atomic_bool", "plain_ptr", "plain_bool"):
+                r = self.rvalue(s, r)
+                s.events.append(("store", l[1:], self.storable(r), "seq_cst" if role.startswith("atomic") else "none", tuple(s.held)))
+            elif role == "unique_ptr":
+                if r[0] != "uptr":
+                    fail("assignment to the owning pointer %s from %s" % (l[2], r))
+                self.own(s, l, r[1])
+            else:
+                fail("assignment to %s (%s)" % (l[2], role))
+            res.append((s, ("void",)))
+        return res
+
+    def storable(self, v):
+        if v[0] == "int" and v[1] == 0:
+            return ("null",)
+        if v[0] in ("null", "bool", "new", "read"):
+            return v
+        fail("store of a value the translator cannot follow (%s)" % (v,))
+
+    def own(self, st, sh, v):
+        if v[0] == "new":
+            if v[1] != len(st.events) - 1:
+                fail("something happens between `new` and handing the object to the owning pointer")
+            st.events.append(("own", sh[1:], tuple(st.held)))
+            st.owner[sh[1:]] = v
+        elif v[0] == "null":
+            st.events.append(("disown", sh[1:], tuple(st.held)))
+            st.owner[sh[1:]] = v
+        else:
+            fail("owning pointer %s reset with %s" % (sh[2], v))
+
+    # ---------------------------------------------------------------- calls
+    def ev_call(self, st, e):
+        f, args = e[1], e[2]
+        res = []
+        if f[0] == "member":
+            for s, o in self.ev(st, f[1]):
+                for s2, vs in self.ev_list(s, args):
+                    res += self.method_call(s2, o, f[2], f[3], vs)
+            return res
+        if f[0] == "name":
+            parts = f[1]
+            chain = self.class_chain()
+            if parts[0] == "std" or parts[-1].startswith("operator"):
+                for s, vs in self.ev_list(st, args):
+                    res += self.std_call(s, parts, f[2], vs)
+                return res
+            if len(parts) == 1 and parts[0] in BUILTIN_TYPES:
+                return self.ev(st, ("cast", [Tok(parts[0], "id", 0, 0)], args[0])) if len(args) == 1 else fail("bad functional cast")
+            own = parts[1:] if len(parts) > 1 and chain and parts[0] in [c.name for c in chain] else parts
+            if len(own) == 1:
+                local = None
+                fr = st.frames[-1]
+                for sc in reversed(fr["scopes"]):
+                    if own[0] in sc["vars"]:
+                        local = sc["vars"][own[0]]
+                        break
+                if local is None and fr["outer"] is not None and own[0] in fr["outer"]:
+                    local = fr["outer"][own[0]]
+                if local is not None:
+                    for s, vs in self.ev_list(st, args):
+                        res += self.call_value(s, local, vs)
+                    return res
+                cands = []
+                for c in chain:
+                    cands += [(c, x) for x in c.funcs.get(own[0], [])]
+                cands += [(None, x) for x in self.unit.funcs.get(own[0], [])]
+                if cands:
+                    for s, vs in self.ev_list(st, args):
+                        res += self.inline(s, own[0], cands, vs)
+                    return res
+            fail("call of a function that is not defined in this file: %s" % "::".join(parts))
+        # call of a computed value (closure, callable)
+        for s, fv in self.ev(st, f):
+            for s2, vs in self.ev_list(s, args):
+                res += self.call_value(s2, fv, vs)
+        return res
+
+    def call_value(self, st, fv, vs):
+        if fv[0] == "userfn":
+            st.events.append(("user_call",))
+            return [(st, ("opaque", "result of the user function"))]
+        if fv[0] == "closure":
+            return self.run_closure(st, fv, vs)
+        fail("call of a value the translator cannot follow (%s)" % (fv,))
+
+    def std_call(self, st, parts, targs, vs):
+        n = "::".join(parts)
+        if n in ("std::forward", "std::move", "std::as_const") and len(vs) == 1:
+            return [(st, vs[0])]
+        if n == "std::addressof" and len(vs) == 1 and vs[0][0] == "shared":
+            return [(st, ("addr", vs[0]))]
+        if n == "std::invoke" and vs:
+            return self.call_value(st, vs[0], vs[1:])
+        if n == "std::make_unique":
+            st.events.append(("new", squeeze("".join(targs or [])), tuple(st.held)))
+            return [(st, ("uptr", ("new", len(st.events) - 1)))]
+        if n == "std::unique_ptr" and len(vs) == 1 and vs[0][0] in ("new", "null"):
+            return [(st, ("uptr", vs[0]))]
+        if n == "std::thread" and vs and vs[0][0] == "closure":
+            return [(st, ("thread", vs[0]))]
+        if n in ("std::thread::operator=", "thread::operator=") and len(vs) == 1 and vs[0][0] == "thread" and st.frames[-1]["this"]:
+            st.events.append(("start_thread", vs[0][1]))
+            return [(st, ("void",))]
+        fail("unsupported call of %s" % n)
+
+    def method_call(self, st, o, op, name, vs):
+        m = name[1][-1]
+        if o[0] == "addr" and op == "->":
+            o = o[1]
+        elif o[0] == "this" or (o[0] == "deref" and o[1] == ("this",)):
+            cands = []
+            for c in self.class_chain():
+                cands += [(c, x) for x in c.funcs.get(m, [])]
+            if not cands:
+                fail("call of the member function %s, which is not defined in this file" % m)
+            return self.inline(st, m, cands, vs)
+        elif op == "->" and not (o[0] == "shared" and o[3] == "unique_ptr"):
+            fail("-> on a value the translator cannot follow (%s)" % (o,))
+        if o[0] == "guardobj":
+            if m == "unlock" and not vs:
+                for fr in st.frames:
+                    for sc in fr["scopes"]:
+                        for g in sc["guards"]:
+                            if g["id"] == o[1]:
+                                if not g["held"] or o[2] != "std::unique_lock":
+                                    fail("unlock() of a guard that cannot be unlocked here")
+                                g["held"] = False
+                                self.unlock(st, g["mutex"])
+                                return [(st, ("void",))]
+            fail("unsupported operation %s on a lock guard" % m)
+        if o[0] != "shared":
+            fail("call of %s on a value the translator cannot follow (%s)" % (m, o))
+        role = o[3]
+        if role in ("atomic_ptr", "atomic_bool"):
+            if m == "load" and len(vs) <= 1:
+                return [(st, self.read_event(st, o, self.order_of(vs, 0)))]
+            if m == "store" and 1 <= len(vs) <= 2:
+                st.events.append(("store", o[1:], self.storable(self.rvalue(st, vs[0])), self.order_of(vs, 1), tuple(st.held)))
+                return [(st, ("void",))]
+            fail("atomic operation %s is not covered by the model" % m)
+        if role == "unique_ptr":
+            if m == "get" and not vs:
+                return [(st, self.owner_get(st, o))]
+            if m == "reset" and len(vs) <= 1:
+                self.own(st, o, self.rvalue(st, vs[0]) if vs else ("null",))
+                return [(st, ("void",))]
+            fail("operation %s on the owning pointer is not covered by the model" % m)
+        if role == "mutex":
+            if m == "lock" and not vs:
+                self.lock(st, o)
+                return [(st, ("void",))]
+            if m == "unlock" and not vs:
+                self.unlock(st, o[1:])
+                return [(st, ("void",))]
+            fail("mutex operation %s is not covered by the model" % m)
+        fail("call of %s on %s (%s)" % (m, o[2], role))
+
+    def lock(self, st, sh):
+        if sh[1:] in st.held:
+            fail("mutex %s locked twice on one path" % sh[2])
+        st.events.append(("lock", sh[1:]))
+        st.held.append(sh[1:])
+        st.owner = {}
+
+    def unlock(self, st, key):
+        if key not in st.held:
+            fail("unlock of a mutex that is not held")
+        st.held.remove(key)
+        st.events.append(("unlock", key))
+        st.owner = {}
+
+    # ---------------------------------------------------------------- functions
+    def parse_func(self, f, what):
+        key = id(f)
+        if key not in self.parsed:
+            self.parsed[key] = Parser(f.body, what).parse_body()
+        return self.parsed[key]
+
+    def pick(self, name, cands, nargs):
+        with_body = [(c, f) for c, f in cands if f.body is not None]
+        if not with_body:
+            fail("function %s has no definition in this file" % name)
+        if len(with_body) > 1:
+            fit = [(c, f) for c, f in with_body if len(f.params) == nargs or any(p[2] for p in f.params)]
+            if len(fit) != 1:
+                fail("call of the overloaded function %s is ambiguous for the translator" % name)
+            with_body = fit
+        return with_body[0]
+
+    def inline(self, st, name, cands, vs, this=None):
+        c, f = self.pick(name, cands, len(vs))
+        decl_static = f.static or any(x.static for _, x in cands)
+        has_this = st.frames[-1]["this"] if st.frames else False
+        if this is not None:
+            has_this = this
+        if decl_static:
+            has_this = False
+        elif c is not None and not has_this:
+            fail("non-static member function %s called where no object is available" % name)
+        self.depth += 1
+        if self.depth > self.MAX_DEPTH:
+            fail("calls nested deeper than %d (recursion?) at %s" % (self.MAX_DEPTH, name))
+        body = self.parse_func(f, "%s()" % name)
+        vars_ = {}
+        k = 0
+        for (pty, pname, pack) in f.params:
+            if pack:
+                val = ("packval", ("opaque", "arguments"))
+                k = len(vs)
+            else:
+                if k >= len(vs):
+                    fail("too few arguments in a call of %s" % name)
+                val = vs[k]
+                k += 1
+                role, ref = self.role_of(pty)
+                if val[0] == "shared" and not ref:
+                    val = self.rvalue(st, val)
+            if pname:
+                vars_[pname] = val
+        if k < len(vs) and not all(v[0] == "packval" for v in vs[k:]):
+            fail("too many arguments in a call of %s" % name)
+        st.frames.append({"scopes": [{"vars": vars_, "guards": []}], "outer": None, "this": has_this})
+        out = []
+        for s in self.exec_stmt(st, body):
+            s.frames.pop()
+            v = s.ret if s.returned else ("void",)
+            s.ret, s.returned = None, False
+            out.append((s, v))
+        self.depth -= 1
+        return out
+
+    def make_closure(self, st, e):
+        caps, params, body = e[1], e[2], e[3]
+        env, this, default = {}, False, None
+        visible = {}
+        fr = st.frames[-1]
+        if fr["outer"]:
+            visible.update(fr["outer"])
+        for sc in fr["scopes"]:
+            visible.update(sc["vars"])
+        for c in caps:
+            if not c:
+                continue
+            if len(c) == 1 and c[0] in ("&", "="):
+                default = str(c[0])
+            elif len(c) == 1 and c[0] == "this" or (len(c) == 2 and c[0] == "*" and c[1] == "this"):
+                this = fr["this"]
+            elif "=" in c:
+                k = c.index("=")
+                names = [x for x in c[:k] if x.k == "id"]
+                if len(names) != 1:
+                    fail("cannot read the lambda capture %s" % " ".join(c))
+                byref = any(x == "&" for x in c[:k])
+                p = Parser(c[k + 1:], "lambda capture %s" % names[0])
+                ce = p.assignment()
+                if p.i != len(p.t):
+                    fail("cannot read the lambda capture %s" % " ".join(c))
+                r = self.ev(st, ce)
+                if len(r) != 1:
+                    fail("lambda capture with a branch")
+                v = r[0][1]
+                if v[0] == "shared" and not byref:
+                    v = self.rvalue(st, v)
+                env[str(names[0])] = v
+            else:
+                names = [x for x in c if x.k == "id"]
+                if len(names) != 1 or str(names[0]) not in visible:
+                    fail("cannot read the lambda capture %s" % " ".join(c))
+                env[str(names[0])] = visible[str(names[0])]
+        if default is not None:
+            for n, v in visible.items():
+                env.setdefault(n, v)
+            this = fr["this"]
+        return ("closure", id(e), this, tuple(sorted(env.items())), ClosureRef(e))
+
+    def run_closure(self, st, cl, vs):
+        e = cl[4].node
+        vars_ = dict(cl[3])
+        k = 0
+        for (pty, pname, pack) in e[2]:
+            if pack:
+                val = ("packval", ("opaque", "arguments"))
+                k = len(vs)
+            else:
+                val = vs[k] if k < len(vs) else ("opaque", "argument")
+                k += 1
+            if pname:
+                vars_[pname] = val
+        self.depth += 1
+        if self.depth > self.MAX_DEPTH:
+            fail("calls nested deeper than %d" % self.MAX_DEPTH)
+        st.frames.append({"scopes": [{"vars": vars_, "guards": []}], "outer": None, "this": cl[2]})
+        out = []
+        for s in self.exec_stmt(st, e[3]):
+            s.frames.pop()
+            v = s.ret if s.returned else ("void",)
+            s.ret, s.returned = None, False
+            out.append((s, v))
+        self.depth -= 1
+        return out
+
+    # ---------------------------------------------------------------- statements
+    def exec_stmt(self, st, s):
+        """-> [state]; a state that has executed `return` carries .returned"""
+        if st.returned:
+            return [st]
+        k = s[0]
+        if k == "empty":
+            return [st]
+        if k == "block":
+            st.frames[-1]["scopes"].append({"vars": {}, "guards": []})
+            states = [st]
+            for sub in s[1]:
+                nxt = []
+                for x in states:
+                    nxt += self.exec_stmt(x, sub)
+                states = nxt
+            for x in states:
+                sc = x.frames[-1]["scopes"].pop()
+                for g in reversed(sc["guards"]):
+                    if g["held"]:
+                        self.unlock(x, g["mutex"])
+            return states
+        if k == "if":
+            out = []
+            for x, b in self.bind_truth(st, s[1]):
+                br = s[2] if b else s[3]
+                if br is None:
+                    out.append(x)
+                else:
+                    out += self.exec_stmt(x, ("block", [br]))
+            return out
+        if k == "return":
+            if s[1] is None:
+                st.returned, st.ret = True, ("void",)
+                return [st]
+            out = []
+            for x, v in self.ev(st, s[1]):
+                if v[0] == "shared":
+                    v = self.rvalue(x, v)
+                x.returned, x.ret = True, v
+                out.append(x)
+            return out
+        if k == "expr":
+            return [x for x, _ in self.ev(st, s[1])]
+        if k == "decl":
+            return self.exec_decl(st, s)
+        fail("unsupported statement %s" % k)
+
+    def exec_decl(self, st, s):
+        _, ty, name, init, kind = s
+        role, ref = self.role_of(ty)
+        if any(x == "static" for x in ty):
+            fail("function-local static %s is not covered" % name)
+        out = []
+        if role == "guard":
+            gname = squeeze("".join(self.resolve_type(ty))).replace("const", "")
+            gname = gname.split("<")[0]
+            for x, vs in self.ev_list(st, init):
+                if len(vs) != 1 or vs[0][0] != "shared":
+                    fail("lock guard %s: expected exactly one mutex argument" % name)
+                if vs[0][3] != "mutex":
+                    fail("lock guard argument %s is not a std::mutex (%s)" % (vs[0][2], vs[0][3]))
+                self.lock(x, vs[0])
+                x.guards += 1
+                x.frames[-1]["scopes"][-1]["guards"].append({"id": x.guards, "mutex": vs[0][1:], "held": True})
+                x.frames[-1]["scopes"][-1]["vars"][name] = ("guardobj", x.guards, gname)
+                out.append(x)
+            return out
+        if role in ("mutex", "othermutex", "atomic_ptr", "atomic_bool", "atomic_other", "unique_ptr") and not ref:
+            fail("local object %s of type %s is not covered" % (name, type_text(ty)))
+        if not init:
+            if kind is None:
+                st.frames[-1]["scopes"][-1]["vars"][name] = ("uninit", name)
+            elif role == "plain_ptr":
+                st.frames[-1]["scopes"][-1]["vars"][name] = ("null",)
+            else:
+                fail("local %s: value-initialisation of %s is not covered" % (name, type_text(ty)))
+            return [st]
+        if len(init) != 1:
+            fail("local %s: initialiser with %d arguments" % (name, len(init)))
+        for x, v in self.ev(st, init[0]):
+            if v[0] == "shared" and not ref:
+                v = self.rvalue(x, v)
+            if v[0] == "int" and v[1] == 0 and role == "plain_ptr":
+                v = ("null",)
+            if role == "plain_bool" and v[0] in ("read", "not", "null", "new", "addr"):
+                b = self.truth(x, v) if v[0] != "read" or self.is_ptr_read(x, v) else [(x, None)]
+                for x2, t in b:
+                    x2.frames[-1]["scopes"][-1]["vars"][name] = v if t is None else ("bool", t)
+                    out.append(x2)
+                continue
+            x.frames[-1]["scopes"][-1]["vars"][name] = v
+            out.append(x)
+        return out
+
+    def is_ptr_read(self, st, v):
+        ev = st.events[v[1]]
+        return ev[1][2] in ("atomic_ptr", "plain_ptr", "unique_ptr")
+
+
+class ClosureRef:
+    """keeps the lambda's syntax tree out of deepcopy / comparisons"""
+
+    def __init__(self, node):
+        self.node = node
+
+    def __deepcopy__(self, memo):
+        return self
+
+    def __eq__(self, other):
+        return isinstance(other, ClosureRef) and other.node is self.node
+
+    def __hash__(self):
+        return id(self.node)
+
+
+# ============================================================================ facts
+
+def show_value(v):
+    if v is None:
+        return "-"
+    if v[0] == "deref":
+        return "*" + show_value(v[1]) + ("(shared)" if len(v) > 2 and v[2] else "")
+    if v[0] in ("read", "new"):
+        return "%s#%d" % (v[0], v[1])
+    if v[0] == "bool":
+        return "true" if v[1] else "false"
+    return v[0]
+
+
+def show_path(st, ret):
+    out = []
+    for k, ev in enumerate(st.events):
+        if ev[0] == "read":
+            s = "#%d=read %s %s%s" % (k, ev[1][1], ev[2], " [locked]" if ev[3] else "")
+            if k in st.conds:
+                s += (" -> set" if st.conds[k] else " -> null/false")
+        elif ev[0] == "store":
+            s = "store %s := %s %s%s" % (ev[1][1], show_value(ev[2]), ev[3], " [locked]" if ev[4] else "")
+        elif ev[0] in ("lock", "unlock"):
+            s = "%s %s" % (ev[0], ev[1][1])
+        elif ev[0] == "new":
+            s = "#%d=new %s%s" % (k, ev[1], " [locked]" if ev[2] else "")
+        elif ev[0] in ("own", "disown"):
+            s = "%s %s%s" % (ev[0], ev[1][1], " [locked]" if ev[2] else "")
+        else:
+            s = ev[0]
+        out.append(s)
+    out.append("return " + show_value(ret))
+    return "; ".join(out)
+
+
+def show_paths(paths):
+    return " || ".join(show_path(s, v) for s, v in paths)
+
+
+def run_function(ex, cls, name, this, args):
+    st = State()
+    st.frames.append({"scopes": [{"vars": {}, "guards": []}], "outer": None, "this": this})
+    cands = [(cls, f) for f in cls.funcs.get(name, [])]
+    if not cands:
+        fail("definition of %s::%s() not found" % (cls.name, name))
+    return ex.inline(st, name, cands, args), any(f.static for _, f in cands)
 
 
 def singleton_facts(path):
-    src = strip_hooks(strip_comments(open(path, encoding="utf-8", errors="replace").read()))
-    _, body = class_body(src, "Singleton")
-    statics = {}
-    for m in re.finditer(r"\bstatic\s+([^;()]+?)\s+(\w+)\s*;", body):
-        statics[m.group(2)] = re.sub(r"\s+", " ", m.group(1)).strip()
-    m = re.search(r"Singleton\s*<\s*T\s*>\s*::\s*instance\s*\(", src)
-    if not m:
-        raise ValueError("definition of Singleton<T>::instance() not found")
-    ibody, _ = braced(src, m.start())
-    c = squeeze(ibody)
-    lg = r"(?:const)?std::lock_guard<std::mutex>\w+\((\w+)\);"
-    shape_b = re.compile(
-        r"^T\*(?P<loc>\w+)=(?P<cell>\w+)\.load\((?P<o1>[\w:]*)\);if\((?P=loc)==nullptr\)\{" + lg.replace(r"(\w+)", r"(?P<mx>\w+)") +
-        r"(?P=loc)=(?P=cell)\.load\((?P<o2>[\w:]*)\);if\((?P=loc)==nullptr\)\{(?P<own>\w+)\.reset\(newT\(.*?\)\);"
-        r"(?P=loc)=(?P=own)\.get\(\);(?P=cell)\.store\((?P=loc)(?:,(?P<o3>[\w:]+))?\);\}\}return\*(?P<ret>\w+);$")
-    shape_a = re.compile(
-        r"^if\((?P<cell>\w+)\.get\(\)==nullptr\)\{" + lg.replace(r"(\w+)", r"(?P<mx>\w+)") +
-        r"if\((?P=cell)\.get\(\)==nullptr\)\{(?P=cell)\.reset\(newT\(.*?\)\);\}\}return\*(?P<ret>\w+);$")
-    f = {}
-    mb, ma = shape_b.match(c), shape_a.match(c)
-    if mb:
-        g = mb.groupdict()
-        f["shape"] = "double-checked locking: atomic fast-path cell + owning pointer"
-        f["cell"], f["owner"], f["mutex"] = g["cell"], g["own"], g["mx"]
-        f["load_order"], f["store_order"] = order_of(g["o1"]), order_of(g["o3"])
-        f["locked_load_order"] = order_of(g["o2"])
-        f["separate_owner"] = g["own"] != g["cell"]
-        if g["ret"] == g["loc"]:
-            f["final_read_shared"] = False
-        elif g["ret"] in (g["cell"], g["own"]):
-            f["final_read_shared"] = True
+    unit = Unit(Source(path))
+    cls = unit.classes.get("Singleton")
+    if cls is None:
+        fail("class Singleton not found")
+    ex = Exec(unit, cls)
+    paths, static = run_function(ex, cls, "instance", False, [("packval", ("opaque", "arguments"))])
+    if not static:
+        fail("Singleton::instance() is not a static member function")
+    what = "Singleton<T>::instance(): the paths through the body are none of the shapes the model covers: "
+
+    def bad(why):
+        fail(what + why + " :: " + show_paths(paths))
+
+    for s, _ in paths:
+        if s.held:
+            bad("a path returns with the mutex held")
+    if len(paths) != 3:
+        bad("%d paths instead of 3" % len(paths))
+    fast = [p for p in paths if len(p[0].order) == 1 and p[0].conds.get(p[0].order[0]) is True]
+    mid = [p for p in paths if len(p[0].order) == 2 and p[0].conds[p[0].order[0]] is False and p[0].conds[p[0].order[1]] is True]
+    slow = [p for p in paths if len(p[0].order) == 2 and p[0].conds[p[0].order[0]] is False and p[0].conds[p[0].order[1]] is False]
+    if not (len(fast) == len(mid) == len(slow) == 1):
+        bad("not the three decisions set / null-set / null-null")
+    (fs, fr), (ms, mr), (ss, sr) = fast[0], mid[0], slow[0]
+    ev = ss.events
+    if not ev or ev[0][0] != "read" or ev[0][3] != ():
+        bad("the first access is not an unlocked read")
+    if len(ev) < 6:
+        bad("the path on which both checks find nothing does not lock / construct / publish")
+    cell, o1 = ev[0][1], ev[0][2]
+    if ev[1][0] != "lock":
+        bad("no lock after the first check")
+    mx = ev[1][1]
+    if not (ev[2][0] == "read" and ev[2][1] == cell and ev[2][3] == (mx,)):
+        bad("no second read of the same cell under the lock")
+    o2 = ev[2][2]
+    if ss.order != [0, 2]:
+        bad("the decisions are not taken on the unlocked and on the locked read")
+    if not (ev[3][0] == "new" and ev[3][2] == (mx,)):
+        bad("no construction under the lock after the second check")
+    if ev[3][1] != "T":
+        bad("the constructed type is %s, not T" % ev[3][1])
+    if not (ev[4][0] == "own" and ev[4][2] == (mx,)):
+        bad("the new object is not handed to an owning pointer under the lock")
+    owner = ev[4][1]
+    separate = owner != cell
+    exp_slow = [("read", cell, o1, ()), ("lock", mx), ("read", cell, o2, (mx,)), ("new", "T", (mx,)), ("own", owner, (mx,))]
+    o3 = "none"
+    if separate:
+        if cell[2] not in ("atomic_ptr", "plain_ptr"):
+            bad("the cell of the unlocked check is neither the owning pointer nor a pointer")
+        if not (ev[5][0] == "store" and ev[5][1] == cell and ev[5][4] == (mx,)):
+            bad("the cell of the unlocked check is not written under the lock after the construction")
+        if ev[5][2] != ("new", 3):
+            bad("the value stored into the cell is not the new object")
+        o3 = ev[5][3]
+        exp_slow.append(("store", cell, ("new", 3), o3, (mx,)))
+    elif cell[2] != "unique_ptr":
+        bad("owner and cell coincide but are not a std::unique_ptr")
+    exp_slow.append(("unlock", mx))
+    exp_mid = [("read", cell, o1, ()), ("lock", mx), ("read", cell, o2, (mx,)), ("unlock", mx)]
+    exp_fast = [("read", cell, o1, ())]
+    finals = set()
+    for (st, rv), exp, local in ((fs, fr), exp_fast, ("read", 0)), ((ms, mr), exp_mid, ("read", 2)), ((ss, sr), exp_slow, ("new", 3)):
+        n = len(exp)
+        if st.events[:n] != exp:
+            bad("unexpected sequence of accesses")
+        rest = st.events[n:]
+        if not rest:
+            if rv != ("deref", local, False):
+                bad("a path does not return the object it found / created")
+            finals.add(False)
+        elif len(rest) == 1 and rest[0][0] == "read" and rest[0][3] == () and rv[:2] == ("deref", ("read", n)):
+            if rest[0][1] != cell:
+                bad("return dereferences another shared object (%s) than the one the unlocked check reads" % rest[0][1][1])
+            finals.add(True)
         else:
-            raise ValueError("instance(): return dereferences an unknown name " + g["ret"])
-    elif ma:
-        g = ma.groupdict()
-        f["shape"] = "double-checked locking on the owning pointer itself"
-        f["cell"], f["owner"], f["mutex"] = g["cell"], g["cell"], g["mx"]
-        f["load_order"], f["store_order"], f["locked_load_order"] = "none", "none", "none"
-        f["separate_owner"] = False
-        if g["ret"] != g["cell"]:
-            raise ValueError("instance(): return dereferences an unknown name " + g["ret"])
-        f["final_read_shared"] = True
-    else:
-        raise ValueError("Singleton<T>::instance(): body has none of the shapes the model covers: " + c[:400])
-    for k in ("cell", "owner", "mutex"):
-        if f[k] not in statics:
-            raise ValueError("instance() uses %s, which is not a static data member of Singleton" % f[k])
-    if squeeze(statics[f["mutex"]]) != "std::mutex":
-        raise ValueError("lock_guard argument %s is not a std::mutex" % f["mutex"])
-    f["cell_type"] = statics[f["cell"]]
-    f["atomic"] = squeeze(f["cell_type"]).startswith("std::atomic<")
-    if not f["atomic"] and mb:
-        raise ValueError("fast-path cell %s is loaded like an atomic but declared %s" % (f["cell"], f["cell_type"]))
-    f["load_acquire"] = f["atomic"] and f["load_order"] in ACQ
-    f["store_release"] = f["atomic"] and f["store_order"] in REL
-    # reset(): must hold the same mutex
-    m = re.search(r"Singleton\s*<\s*T\s*>\s*::\s*reset\s*\(", src)
-    if m:
-        rb = squeeze(braced(src, m.start())[0])
-        f["reset_locked"] = bool(re.match(r"^(?:const)?std::lock_guard<std::mutex>\w+\(" + f["mutex"] + r"\);", rb))
+            bad("unexpected accesses before return")
+    if len(finals) != 1:
+        bad("the paths do not agree on what return dereferences")
+    for k, nm in ((cell, "cell"), (owner, "owner"), (mx, "mutex")):
+        if k[0] != "Singleton" or not cls.vars[k[1]].static:
+            fail("instance() uses %s, which is not a static data member of Singleton" % k[1])
+    f = {}
+    f["shape"] = ("double-checked locking: atomic fast-path cell + owning pointer" if separate
+                  else "double-checked locking on the owning pointer itself")
+    f["cell"], f["owner"], f["mutex"] = cell[1], owner[1], mx[1]
+    f["load_order"], f["store_order"], f["locked_load_order"] = o1, o3, o2
+    f["separate_owner"] = separate
+    f["final_read_shared"] = finals.pop()
+    f["cell_type"] = unit.src.span_text(cls.vars[cell[1]].type_toks)
+    f["atomic"] = cell[2] == "atomic_ptr"
+    f["load_acquire"] = f["atomic"] and o1 in ACQ
+    f["store_release"] = f["atomic"] and o3 in REL
+    f["paths"] = [show_path(s, v) for s, v in (fast[0], mid[0], slow[0])]
+    # reset(): informational (the property assumes it is not called concurrently with instance())
+    try:
+        rp, _ = run_function(Exec(unit, cls), cls, "reset", False, [])
+        f["reset_locked"] = all(s.events and s.events[0] == ("lock", mx) and s.events[-1] == ("unlock", mx) and
+                                all(e[-1] == (mx,) for e in s.events[1:-1]) for s, _ in rp)
+    except (ValueError, KeyError, IndexError) as e:
+        f["reset_locked"] = "not understood: %s" % e
     return f
 
 
+def parse_args(toks, what):
+    p = Parser(toks, what)
+    args = []
+    while p.i < len(p.t):
+        e = p.assignment()
+        if p.at("..."):
+            p.i += 1
+            e = ("pack", e)
+        args.append(e)
+        if p.i < len(p.t):
+            p.eat(",")
+    return args
+
+
 def managed_facts(path):
-    src = strip_hooks(strip_comments(open(path, encoding="utf-8", errors="replace").read()))
-    head, body = class_body(src, "ManagedThread")
-    hm = re.search(r":(.*)$", head, re.S)
-    bases = []
-    if hm:
-        for b in hm.group(1).split(","):
-            b = re.sub(r"\b(public|private|protected|virtual)\b", "", b).strip()
-            bases.append(squeeze(b))
+    unit = Unit(Source(path))
+    cls = unit.classes.get("ManagedThread")
+    if cls is None:
+        fail("class ManagedThread not found")
+    ex = Exec(unit, cls)
+    bases = [squeeze("".join(ex.resolve_type(b))) for _, b in cls.bases]
     if "std::thread" not in bases:
-        raise ValueError("ManagedThread does not derive from std::thread: bases = %s" % bases)
-    m = re.search(r"ManagedThread\s*::\s*isActive\s*\(\s*\)[^{;]*\{", src)
-    if not m:
-        raise ValueError("definition of ManagedThread::isActive() not found")
-    ab = squeeze(braced(src, m.start())[0])
-    am = re.match(r"^return(\w+)\.load\(([\w:]*)\);$", ab)
-    if not am:
-        raise ValueError("isActive(): unrecognised body " + ab)
-    flag, load_order = am.group(1), order_of(am.group(2))
-    decl = re.compile(r"([\w:<> ]+?)\s+" + flag + r"\s*(?:\{\s*(\w+)\s*\}|=\s*(\w+))?\s*;")
-
-    def find_decl(text):
-        for dm in decl.finditer(text):
-            t = squeeze(dm.group(1))
-            if t.startswith("return") or not t:
-                continue
-            return re.sub(r"\s+", " ", dm.group(1)).strip(), dm.group(2) or dm.group(3)
-        return None
-
-    where, ftype, finit = None, None, None
-    d = find_decl(body)
-    if d:
-        where, (ftype, finit) = "member", d
+        fail("ManagedThread does not derive from std::thread: bases = %s" % bases)
+    # isActive(): one load of the flag, its value returned
+    paths, _ = run_function(ex, cls, "isActive", True, [])
+    flag, load_order = None, None
+    for s, rv in paths:
+        if len(s.events) != 1 or s.events[0][0] != "read" or s.events[0][3] != ():
+            fail("isActive(): expected exactly one load of the flag: " + show_paths(paths))
+        if not (rv == ("read", 0) or (0 in s.conds and rv == ("bool", s.conds[0]))):
+            fail("isActive() does not return the value of the flag: " + show_paths(paths))
+        if flag is not None and (flag, load_order) != (s.events[0][1], s.events[0][2]):
+            fail("isActive(): the paths read different things: " + show_paths(paths))
+        flag, load_order = s.events[0][1], s.events[0][2]
+    if flag is None or flag[2] not in ("atomic_bool", "plain_bool"):
+        fail("isActive(): the object read is not a flag: %s" % (flag,))
+    if len(paths) == 2 and not ({True, False} == {s.conds.get(0) for s, _ in paths}):
+        fail("isActive(): unexpected paths: " + show_paths(paths))
+    if len(paths) > 2:
+        fail("isActive(): unexpected paths: " + show_paths(paths))
+    fcls = unit.classes[flag[0]]
+    fvar = fcls.vars[flag[1]]
+    if fvar.static:
+        fail("the flag %s is a static member" % flag[1])
+    if flag[0] == cls.name:
+        where = "member"
     else:
-        for i, b in enumerate(bases):
-            if b == "std::thread":
-                continue
-            try:
-                _, bb = class_body(src, b.split("::")[-1])
-            except ValueError:
-                continue
-            d = find_decl(bb)
-            if d:
-                where, (ftype, finit) = "base:%d:%s" % (i, b), d
-                break
-    if where is None:
-        raise ValueError("declaration of the flag %s not found in ManagedThread or its bases" % flag)
-    if finit != "false":
-        raise ValueError("the flag %s is not initialised with false (found %r)" % (flag, finit))
-    # constructor: where is the thread started, what does the thread run
-    m = re.search(r"ManagedThread\s*::\s*ManagedThread\s*\(", src)
-    if not m:
-        raise ValueError("definition of the ManagedThread constructor not found")
-    # skip the parameter list; what follows is the mem-initialiser list (with the lambda) and the body
-    depth = 1
-    j = m.end()
-    while depth:
-        if src[j] == "(":
-            depth += 1
-        elif src[j] == ")":
-            depth -= 1
-        j += 1
-    rest = src[j:]
-    rs = squeeze(rest)
-    started_in_init = rs.startswith(":std::thread([")
-    lam = re.search(r"\{(\w+)->store\(true" + MO + r"\);func\(.*?\);\1->store\(false" + MO + r"\);\}", rs)
-    if not lam:
-        raise ValueError("thread function: expected store(true); func(...); store(false) through one pointer")
-    cap = re.search(r"\[[^\]]*\b" + lam.group(1) + r"=&(\w+)[^\]]*\]", rs)
-    if not cap or cap.group(1) != flag:
-        raise ValueError("the thread function does not store into the flag isActive() reads (%s)" % flag)
-    so1, so2 = order_of(lam.group(2)), order_of(lam.group(3))
+        where = None
+        for i, (_, b) in enumerate(cls.bases):
+            ids = [x for x in b if x.k == "id"]
+            if ids and ids[-1] == flag[0]:
+                where = "base:%d:%s" % (i, bases[i])
+        if where is None:
+            fail("declaration of the flag %s not found in ManagedThread or its bases" % flag[1])
+    # the constructor: where is the thread started, what does the thread run
+    ctors = [f for f in cls.funcs.get("ManagedThread", []) if f.body is not None]
+    if len(ctors) != 1:
+        fail("expected exactly one ManagedThread constructor with a body, found %d" % len(ctors))
+    ctor = ctors[0]
+    vars_ = {}
+    for k, (pty, pname, pack) in enumerate(ctor.params):
+        if pname:
+            vars_[pname] = ("packval", ("opaque", "arguments")) if pack else (("userfn",) if k == 0 else ("opaque", "argument"))
+    if not ctor.params or ctor.params[0][2]:
+        fail("the constructor's first parameter is not the thread function")
+    st = State()
+    st.frames.append({"scopes": [{"vars": vars_, "guards": []}], "outer": None, "this": True})
+    closure, started_in_init, flag_init = None, False, fvar.init
+    flag_init_kind = fvar.init_kind
+    for name_toks, arg_toks, br in ctor.inits:
+        nm = squeeze("".join(ex.resolve_type(name_toks)))
+        if nm == flag[1] and flag[0] == cls.name:
+            flag_init, flag_init_kind = arg_toks, br
+            continue
+        r = ex.ev_list(st, parse_args(arg_toks, "initialiser of " + nm))
+        if len(r) != 1:
+            fail("constructor: initialiser of %s branches" % nm)
+        st, vs = r[0]
+        if nm == "std::thread":
+            if not vs or vs[0][0] != "closure":
+                fail("constructor: std::thread is not started with a lambda")
+            closure, started_in_init = vs[0], True
+        elif nm in bases and vs:
+            fail("constructor: base %s is initialised with arguments" % nm)
+    if st.events:
+        fail("constructor: the member initialisers touch shared state")
+    body = Parser(ctor.body, "ManagedThread constructor").parse_body()
+    outs = ex.exec_stmt(st, body)
+    if len(outs) != 1:
+        fail("constructor: the body branches")
+    evs = outs[0].events
+    if started_in_init:
+        if evs:
+            fail("constructor: unexpected accesses in the body after the thread was started by the initialiser")
+    else:
+        if len(evs) == 1 and evs[0][0] == "start_thread":
+            closure = evs[0][1]
+        else:
+            fail("cannot see where the constructor starts the thread")
+    # initial value of the flag
+    if flag_init is None:
+        fail("the flag %s is not initialised with false (no initialiser found)" % flag[1])
+    iv = parse_args(flag_init, "initialiser of the flag")
+    s0 = State()
+    s0.frames.append({"scopes": [{"vars": {}, "guards": []}], "outer": None, "this": False})
+    r = ex.ev_list(s0, iv) if iv else [(s0, [("bool", False)])]      # `{}` value-initialises
+    if len(r) != 1 or len(r[0][1]) != 1 or r[0][1][0] != ("bool", False) or r[0][0].events:
+        fail("the flag %s is not initialised with false (found %r)" % (flag[1], " ".join(flag_init)))
+    # the thread function
+    tp = ex.run_closure(State(), closure, [("packval", ("opaque", "arguments"))])
+    if len(tp) != 1:
+        fail("thread function: branches: " + show_paths(tp))
+    te = tp[0][0].events
+    if not (len(te) == 3 and te[0][0] == "store" and te[1] == ("user_call",) and te[2][0] == "store" and
+            te[0][2] == ("bool", True) and te[2][2] == ("bool", False) and te[0][4] == () and te[2][4] == ()):
+        fail("thread function: expected store(true); func(...); store(false) through one pointer: " + show_paths(tp))
+    if te[0][1] != flag or te[2][1] != flag:
+        fail("the thread function does not store into the flag isActive() reads (%s)" % flag[1])
+    so1, so2 = te[0][3], te[2][3]
     if started_in_init:
         if where == "member":
             first = False
         else:
             first = int(where.split(":")[1]) < bases.index("std::thread")
     else:
-        if re.match(r"^(:[^{]*)?\{.*(std::thread::operator=|static_cast<std::thread&>\(\*this\)=)", rs):
-            first = True     # thread started in the constructor body, all members exist
-        else:
-            raise ValueError("cannot see where the constructor starts the thread")
-    return {"bases": bases, "flag": flag, "flag_type": ftype, "flag_where": where,
-            "flag_atomic": squeeze(ftype).startswith("std::atomic<"),
+        first = True         # thread started in the constructor body, all bases and members exist
+    atomic = flag[2] == "atomic_bool"
+    return {"bases": bases, "flag": flag[1], "flag_type": unit.src.span_text(fvar.type_toks), "flag_where": where,
+            "flag_atomic": atomic,
             "thread_started_in": "base-class initialiser" if started_in_init else "constructor body",
             "flag_first": first, "store_orders": [so1, so2], "load_order": load_order,
-            "orders_ok": so1 in REL and so2 in REL and load_order in ACQ}
+            "orders_ok": atomic and so1 in REL and so2 in REL and load_order in ACQ,
+            "thread_function": show_path(tp[0][0], None)}
 
+
+# ============================================================================ output
 
 def lean_bool(b):
     return "true" if b else "false"
@@ -276,12 +2114,12 @@ def translate(repo, lean):
     errs = []
     try:
         s = singleton_facts(os.path.join(repo, "src/celma/common/singleton.hpp"))
-    except (ValueError, OSError) as e:
+    except (ValueError, OSError, KeyError, IndexError, RecursionError) as e:
         errs.append("singleton.hpp: %s" % e)
         s = dict(FALLBACK_S)
     try:
         m = managed_facts(os.path.join(repo, "src/celma/common/managed_thread.hpp"))
-    except (ValueError, OSError) as e:
+    except (ValueError, OSError, KeyError, IndexError, RecursionError) as e:
         errs.append("managed_thread.hpp: %s" % e)
         m = dict(FALLBACK_M)
     out = os.path.join(lean, "CelmaVerif", "Generated", "SharedState.lean")
